@@ -17,6 +17,19 @@ case "$mode" in
     rc=$?
     t1=$(date +%s)
     ok=$(grep -c "^sim_miri ok" "$log")
+    # An aliasing-model complaint alone (Stacked Borrows) is not a statement about the property:
+    # ask Tree Borrows for a second opinion; data races, dangling accesses and C16-VIOLATION lines
+    # count directly.
+    if ! grep -q "C16-VIOLATION\|Data race\|data race\|dangling\|use-after-free\|has been freed" "$log" && grep -q "Undefined Behavior" "$log"; then
+        MIRIFLAGS="-Zmiri-many-seeds=0..$seeds -Zmiri-preemption-rate=0.5 -Zmiri-tree-borrows" cargo +nightly miri run --offline -q -- "$first" "$count" > "$log.tb" 2>&1
+        if ! grep -q "Undefined Behavior\|C16-VIOLATION" "$log.tb"; then
+            echo "note: Miri reported undefined behaviour under Stacked Borrows only (clean under Tree Borrows); not counted as a C16 violation: $(grep -m1 'Undefined Behavior' "$log" | cut -c1-200)"
+            ok=$(grep -c "^sim_miri ok" "$log.tb")
+            t1=$(date +%s)
+            echo "MIRI-STATS executions_ok=$ok wall_s=$((t1-t0)) seeds=$seeds scenarios=$count violation=0"
+            exit 0
+        fi
+    fi
     if grep -q "C16-VIOLATION\|Undefined Behavior\|data race" "$log"; then
         seed=$(grep -m1 "FAILING SEED:" "$log" | sed 's/.*FAILING SEED: *//')
         what=$(grep -m1 "C16-VIOLATION\|Undefined Behavior\|Data race" "$log" | cut -c1-400)
